@@ -66,6 +66,12 @@ def cases(tier, seed):
             for k in (1, 2):
                 out.append({'id': '%s:ps3:cap%d:producer-fault@%d' % (route, cap, k), 'route': route, 'ps': 3, 'cap': cap, 'blocks': False, 'mode': 'random',
                             'budget': 25 if q else 300, 'sseed': rng.randrange(1 << 30), 'cost': 2, 'fail_put': k})
+    # ... the same with the failure arising where it does in practice: the source file is cut short while the producer is about to hand over
+    # plane set k, so that its next read of the source fails inside whatever reads it
+    for cap in (1, 2, 16):
+        for route in ('segy', 'segy-iops'):
+            out.append({'id': '%s:ps5:cap%d:source-truncated@1' % (route, cap), 'route': route, 'ps': 5, 'cap': cap, 'blocks': False, 'mode': 'random',
+                        'budget': 15 if q else 200, 'sseed': rng.randrange(1 << 30), 'cost': 2, 'fail_put': 1, 'truncate_source': True})
     return out
 
 
@@ -87,7 +93,7 @@ def setup(case, sc):
         return (lambda out, mem_=mem2: conv.convert_segy(s['path'], out, rate, bs, detection=det2, mem_limit=mem_)), s, rate, bs
     bs = (8, 8, -1) if case['blocks'] else (4, 4, -1)
     b0 = bs[0]
-    nI = {1: b0 - 1, 2: b0 + 1, 3: 2 * b0 + 1}[ps]
+    nI = {1: b0 - 1, 2: b0 + 1, 3: 2 * b0 + 1, 5: 4 * b0 + 1}[ps]
     nX, nZ = (5, 6) if not case['blocks'] else (9, 65)
     if route == 'numpy':
         D = gen.cube((nI, nX, nZ), 3)
@@ -101,7 +107,7 @@ def setup(case, sc):
     return (lambda out, mem_=mem: conv.convert_segy(s['path'], out, rate, bs, reduce_iops=route == 'segy-iops', detection=det, mem_limit=mem_)), s, rate, bs
 
 
-def run_one(job, out, chooser, cap, fail_at=None, fail_put=None):
+def run_one(job, out, chooser, cap, fail_at=None, fail_put=None, truncate_src=None):
     """One controlled execution.  Returns dict(deadlock, trace, bytes, py/raw write logs, writes_after_return)."""
     import seismic_zfp.conversion as C
     import seismic_zfp.conversion_utils as CU
@@ -128,6 +134,9 @@ def run_one(job, out, chooser, cap, fail_at=None, fail_put=None):
                 nput[0] += 1
                 if nput[0] - 1 == fail_put:
                     S.injected_producer_faults = getattr(S, 'injected_producer_faults', 0) + 1
+                    if truncate_src:
+                        os.truncate(truncate_src, 3600 + 240)       # the source loses everything after its first trace header
+                        return
                     raise OSError(5, 'Input/output error (injected: source unreadable at plane set %d)' % fail_put)
         S.put_hook = put_hook
     oldq, oldt, oldz = CU.Queue, CU.Thread, CU.zfpy
@@ -288,7 +297,12 @@ def run_case(case, ctx):
             return en[names.index(c)]
         if os.path.exists(out):
             os.remove(out)
-        S, rec, err = run_one(job, out, chooser, case['cap'], case.get('fail_at'), case.get('fail_put'))
+        if case.get('truncate_source'):
+            import shutil
+            if not os.path.exists(src['path'] + '.whole'):
+                shutil.copy(src['path'], src['path'] + '.whole')
+            shutil.copy(src['path'] + '.whole', src['path'])
+        S, rec, err = run_one(job, out, chooser, case['cap'], case.get('fail_at'), case.get('fail_put'), src['path'] if case.get('truncate_source') else None)
         if not S.queues or not S.trace or (not rec.py and err is None and not S.deadlock):
             # the pipeline did not go through the instrumented Queue / Thread / open (e.g. after a refactoring): nothing was controlled
             return {'inconclusive': 'instrumentation not reached: %d queues, %d scheduled operations, %d recorded writes' % (len(S.queues), len(S.trace), len(rec.py)),
